@@ -85,6 +85,30 @@ type Team struct {
 }
 
 // Counts has unsigned and signed integer leaves (navigated, never compared: their JSON twin is a float).
+// Dyn / DynItem: Go values that are not in JSON-canonical form.
+type Dyn struct {
+	Name string
+	Kids []*DynItem
+	Repo json.RawMessage
+	ID   interface{}
+}
+
+// NumKinds: numeric slices of Go kinds other than float64.
+type NumKinds struct {
+	Ints  []int
+	I64   []int64
+	F32   []float32
+	U8    []uint8
+	Mixed []interface{}
+	One   int
+}
+
+type DynItem struct {
+	Name  string
+	Attrs map[string]interface{}
+	Tags  []interface{}
+}
+
 type Counts struct {
 	U   uint
 	U8  uint8
@@ -410,6 +434,58 @@ func checkC18(r *harness.Run) harness.Coverage {
 						r.Report(harness.Violation{Kind: kind, Signature: sig,
 							Input:    map[string]interface{}{"expression": text, "document_go_type": fmt.Sprintf("%T", d), "document_json": string(js), "position_in_sequence": round*len(embDocs) + di, "note": "one compiled expression searched over documents of several struct types in sequence"},
 							Expected: show(want, werr, nil) + " (result on the equivalent generic JSON document)", Observed: show(got, gerr, gpn)})
+						break
+					}
+				}
+			}
+		}
+	}
+	// documents whose Go values are NOT in JSON-canonical form (ints inside interface{} fields, json.RawMessage
+	// members) reached through pointers: only "no panic, no modification" is demanded - a library that decodes,
+	// normalises or round-trips what it is handed must do so on its own copy
+	{
+		mk := func() []interface{} {
+			return []interface{}{
+				&Dyn{Name: "dyn", Kids: []*DynItem{{"a", map[string]interface{}{"cpu": 2, "on": true}, []interface{}{1, "x", int64(3)}}, {"b", map[string]interface{}{"cpu": uint8(4)}, []interface{}{7}}, nil},
+					Repo: json.RawMessage(`{"a": {"b": 1}, "S": "v"}`), ID: 7},
+				Dyn{Name: "val", Kids: []*DynItem{{"c", map[string]interface{}{}, []interface{}{}}}, Repo: json.RawMessage(`[1, 2]`), ID: int32(-1)},
+				map[string]interface{}{"Name": "raw", "Repo": json.RawMessage(`{"S": "v", "a": [1]}`), "ID": 3, "Kids": []interface{}{json.RawMessage(`[1]`), &DynItem{"d", map[string]interface{}{"cpu": 1}, []interface{}{2}}}},
+				[]*DynItem{{"e", map[string]interface{}{"cpu": 9}, []interface{}{int8(1)}}},
+				&NumKinds{Ints: []int{3, 1, 2}, I64: []int64{-1, 5}, F32: []float32{1.5, 0.25}, U8: []uint8{7, 8, 9}, Mixed: []interface{}{1.0, 2, int64(3)}, One: 4},
+				NumKinds{Ints: []int{}, I64: []int64{9}, F32: []float32{}, U8: []uint8{}, Mixed: []interface{}{}, One: 0},
+			}
+		}
+		dynExprs := []string{}
+		for _, f := range []string{"Ints", "I64", "F32", "U8", "Mixed"} {
+			for _, c := range []string{"avg(%s)", "sum(%s)", "max(%s)", "min(%s)", "sort(%s)", "reverse(%s)", "length(%s)", "join(',', %s)", "abs(%s[0])", "to_string(%s)", "contains(%s, `1`)", "map(&@, %s)", "%s[0]", "%s[?@ > `1`]", "%s[::-1]",
+				"sort_by(%s, &@)", "max_by(%s, &@)", "to_array(%s)", "not_null(%s)", "%s[*].abs(@)", "ceil(%s[0])", "%s == %s", "[%s, %s][]", "to_number(%s[0])", "type(%s[0])", "avg(%s) > One", "sum(%s[1:])"} {
+				dynExprs = append(dynExprs, strings.Replace(c, "%s", f, -1))
+			}
+		}
+		dynExprs = append(dynExprs, "abs(One)", "One > `1`", "[One, Ints]", "sum([One, One])", "avg([Ints[0], I64[0]])", "max([One, U8[0]])")
+		for _, text := range append([]string{"to_string(@)", "Kids[*].to_string(@)", "to_string(Kids[0])", "Repo", "Repo.a", "Repo.S", "[ID, Repo]", "length(Repo)", "type(Repo)", "Kids[*].type(@)", "Kids[*].not_null(@)", "values(@)", "keys(@)",
+			"Kids[*].Attrs", "Kids[*].Attrs.cpu", "Kids[*].Tags[0]", "Kids[].Tags[]", "ID", "abs(ID)", "Kids[*].Attrs.cpu | sum(@)", "max_by(Kids, &Attrs.cpu)", "sort_by(Kids, &Name)", "map(&Name, Kids)", "to_array(@)", "to_array(Kids[0])",
+			"merge(Kids[0].Attrs, Kids[1].Attrs)", "contains(Kids[0].Tags, `1`)", "Kids[0] == Kids[0]", "Kids[?Attrs.cpu > `1`].Name", "[*].Name", "[*].to_string(@)", "[0].Attrs", "not_null(Repo, ID)", "Kids[1]", "Kids[1].Repo", "Kids[0][0]",
+			"length(Kids)", "reverse(Kids)", "Kids[::-1]", "{r: Repo, k: Kids}", "Repo || ID", "Repo[0]", "Repo[*]", "Repo[]", "join(',', Kids[*].Name)", "to_number(ID)", "to_string(ID)", "Kids[*].Tags | [0]"}, dynExprs...) {
+			jp, cerr, pn := impl.Compile(text)
+			if pn != nil || cerr != nil {
+				continue
+			}
+			for round := 0; round < 2; round++ {
+				for _, d := range mk() {
+					before := snap.Roots{{Name: "doc", V: d}}
+					bh, bl := before.Hash(), before.Lines()
+					_, _, gpn := impl.Search(jp, d)
+					extraPairs++
+					if after := (snap.Roots{{Name: "doc", V: d}}); after.Hash() != bh {
+						r.Report(harness.Violation{Kind: "doc-mutated", Signature: "go-document-modified:" + text,
+							Input:    map[string]interface{}{"expression": text, "document_go_type": fmt.Sprintf("%T", d)},
+							Expected: "Search does not modify a Go-typed document either", Observed: "deep snapshot of the Go value differs after the call: " + strings.Join(snap.Diff(bl, after.Lines()), "; ")})
+						break
+					}
+					if gpn != nil {
+						r.Report(harness.Violation{Kind: "panic", Signature: "search-panic:" + gpn.Site + ":" + gpn.Class,
+							Input: map[string]interface{}{"expression": text, "document_go_type": fmt.Sprintf("%T", d)}, Expected: "a value or an error", Observed: gpn.Error(), Site: gpn.Site})
 						break
 					}
 				}
